@@ -20,6 +20,7 @@
 
 #include <iosfwd>
 #include <string>
+#include <type_traits>
 #include "celma/common/detail/name_path_remain.hpp"
 #include "celma/container/detail/property_entry.hpp"
 #include "celma/container/detail/property_factory.hpp"
@@ -175,7 +176,10 @@ template< typename T>
    auto  value_entry_iter = mProperties.find( name);
    if (value_entry_iter != mProperties.end())
    {
-      if (value_entry_iter->second->entryType() != PropertyEntry::Types::value)
+      // only a value is overwritten, and only by a value: a link is never
+      // created in place of an existing entry (other links may point to it)
+      if ((value_entry_iter->second->entryType() != PropertyEntry::Types::value)
+          || std::is_same_v< T, property_map_t::const_iterator>)
          return false;
 
       // because the type could change, and because the members in
